@@ -4,6 +4,7 @@ CONSTANTS MaxReq = 2
           MaxLeases = 2
           MaxClock = 4
           MaxReconnects = 0
+          OvertakesHeld = TRUE
           AppActsOnHeld = TRUE
           QSize = 0
 INVARIANT NothingOvertakesItsRequest
